@@ -53,9 +53,9 @@ func execTap(op string, a []string) (string, bool) {
 			} else if txscript.VerifyTaprootLeafCommitment(parsed, prog, leaf.Script) != nil {
 				res = "fail"
 			}
-			parts = append(parts, hx(cbBytes)+":"+res)
+			parts = append(parts, res)
 		}
-		return hx(root[:]) + " " + hx(prog) + " | " + strings.Join(parts, ","), true
+		return strconv.Itoa(len(prog)) + " | " + strings.Join(parts, ","), true
 	}
 	return execHard(op, a)
 }
